@@ -48,6 +48,8 @@ def budget(tier):
 
 
 def gen(rng, i, tier):
+    if i % 10 == 9:     # targeted stream: state surviving between the runs of the iterated variant
+        return mesgen.gen_stale(rng)
     case = mesgen.gen_election(rng)
     return mesgen.gen_config(rng, case)
 
@@ -102,6 +104,7 @@ def stats(cases, obs):
         d["by_tb"][t] = d["by_tb"].get(t, 0) + 1
         d["binary"][str(c["binary"])] = d["binary"].get(str(c["binary"]), 0) + 1
         d["multi"] += bool(c["multi"])
+        d["stale_state_stream"] = d.get("stale_state_stream", 0) + (c.get("stream") == "stale")
         d["irresolute"] += not c["resolute"]
         d["iterated"] += c["inc"] is not None
         r = str(o["flags"]["rounds"])
